@@ -61,7 +61,7 @@ def gen_plan(rng, i: int, tier: str) -> dict:
     g = 0
     for k in range(n):
         r = rng.random()
-        net = "online" if rng.random() < 0.75 else "offline"
+        net = "online" if rng.random() < 0.75 else rng.choice(("offline", "offline", "slow"))
         fl = rng.choice(("sync", "async", "async"))
         grp = None
         if fl == "async":
@@ -206,7 +206,7 @@ class C10(common.Check):
                   "scheduler / transport / clock": "simulated (SimLoop external-completion order from the PRNG, ready queue FIFO)",
                   "security context": "stub (StubCtx)", "reference model": "analytic fresh-cache model + ref.cms/ref.gkdi"}
     assumptions = ["'fresh cache' = a new KeyCache holding the root keys loaded so far", "two overlapping operations may both fetch: RPC economy is judged only for operations invoked after the covering one returned (global event sequence numbers)"]
-    required_fired = ("cache_hit_no_rpc", "cache_made_it_possible", "legit_failure", "concurrent_groups", "covered_op", "identity_change", "many_l0")
+    required_fired = ("cache_hit_no_rpc", "cache_made_it_possible", "legit_failure", "concurrent_groups", "covered_op", "identity_change", "many_l0", "slowconn")
 
     def cases(self, tier, seed):
         rng = prng.stream(seed, "C10")
@@ -227,7 +227,8 @@ class C10(common.Check):
         sched = common.key_hash(tr.schedule)
         n_api = sum(1 for o in case["ops"] if o["op"] in ("protect", "unprotect"))
         return {"viol": viol, "digest": tr.world.digest(), "key": common.key_hash([case, sched]) if n_api >= 2 else None,
-                "fired": {"sched_choice_points": st.get("choice_points", 0), "seg": st.get("seg", 0), "clk": st.get("clk", 0), "noconn": st.get("noconn", 0)},
+                "fired": {"sched_choice_points": st.get("choice_points", 0), "seg": st.get("seg", 0), "clk": st.get("clk", 0), "noconn": st.get("noconn", 0),
+                          "slowconn": st.get("slowconn", 0)},
                 "probes": probes, "vtime_ns": st.get("vtime_ns", 0)}
 
     def shrink(self, case):
